@@ -132,10 +132,14 @@ fn remove_unused_sub_elements(module: &mut Module) {
         .compu_vtab_range
         .retain(|item| used_compu_tabs.contains(&item.name));
 
-    // remove all unused UNITs
-    for unit in &module.unit {
-        if let Some(ref_unit) = &unit.ref_unit {
-            used_units.insert(ref_unit.unit.clone());
+    // remove all unused UNITs: a UNIT is in use if a COMPU_METHOD refers to it,
+    // or if a UNIT that is in use refers to it through REF_UNIT
+    let mut pending: Vec<String> = used_units.iter().cloned().collect();
+    while let Some(name) = pending.pop() {
+        if let Some(ref_unit) = module.unit.get(&name).and_then(|unit| unit.ref_unit.as_ref()) {
+            if used_units.insert(ref_unit.unit.clone()) {
+                pending.push(ref_unit.unit.clone());
+            }
         }
     }
 
